@@ -5,6 +5,7 @@ package icsim
 import (
 	"math/big"
 
+	"github.com/icon-project/goloop/icon/iiss/icstate"
 	"github.com/icon-project/goloop/module"
 )
 
@@ -26,3 +27,6 @@ func VerifC34Treasury(s Simulator) module.Address {
 	sim := s.(*simulatorImpl)
 	return sim.newReadonlyCallContext().Treasury()
 }
+
+// VerifC34DummyPRepInfo returns registration data for a new P-Rep (the package's own test fixture).
+func VerifC34DummyPRepInfo(i int) *icstate.PRepInfo { return newDummyPRepInfo(i) }
